@@ -10,8 +10,9 @@ class C08(Prop):
     assumptions = ['np.random.randn / rand are replaced by prepared arrays and np.random.seed by a no-op for the correspondence cases; NumPy is '
                    'assumed to deliver i.i.d. standard normal draws',
                    'numpy.linalg.eigh is used by the oracle to read the eigenvalue pattern of sampled tensors']
-    unproved = ['uniformity on the 6-sphere, Haar-uniform orientation and independence of samples: Kolmogorov-Smirnov / correlation tests on '
-                '1e5 (thorough: 4e5) seeded draws in this run (the algebraic half - equivariance under norm-preserving linear maps - is proved)']
+    unproved = ['that NumPy delivers i.i.d. standard normal draws and that separate calls are independent: Kolmogorov-Smirnov / correlation tests on '
+                '1e5 (thorough: 4e5) seeded draws in this run (GIVEN i.i.d. normal input, rotation invariance of the sampled laws and their support on the unit sphere are proved in Props/C08Measure)',
+                'uniqueness of the rotation-invariant probability measure on the sphere / rotation group (invariant = uniform / Haar) is classical but not available in Mathlib']
     rule = ('replayed Gaussian draws for 1..7 samples per call (including tiny and huge scales and a draw parallel to the first axis to trigger '
             'the redraw loop), all sampler entry points (random_mt, random_dc, random_clvd, random_sample for dc/mt), requested counts 1..50; '
             'non-trivial = more than one sample')
